@@ -199,7 +199,8 @@ def check_file(sh, fa, rng, case, recs, how, intervals=None):
         enc = RB.encode(node, RC.from_datum(node, recs[0]))
         parsed = fa.parse_schema(copy.deepcopy(js))
         for cut in range(len(enc)):
-            st, got = guard(fa.schemaless_reader, io.BytesIO(enc[:cut]), parsed)
+            hue = (None, "replace", "ignore")[cut % 3]  # no handling of undecodable text excuses a short read
+            st, got = guard(fa.schemaless_reader, io.BytesIO(enc[:cut]), parsed, **({"handle_unicode_errors": hue} if hue else {}))
             sh.count("schemaless_prefixes")
             if st == "ok":
                 sh.violation("schemaless-prefix-accepted", "%d-byte prefix of a %d-byte encoding returned %s" % (cut, len(enc), printable(got, 200)),
